@@ -67,8 +67,8 @@ CLAIMED = {
 
 
 for _pid, _title, _what in [
-  ("C01", "valid samples accepted", "every sample labelled valid is accepted by jsonschema Draft202012Validator; non-vacuity when a generated sample is accepted"),
-  ("C02", "invalid samples rejected", "every sample labelled invalid is rejected by the validator"),
+  ("C01", "valid samples accepted", "every sample labelled valid is accepted by jsonschema Draft202012Validator; non-vacuity when a generated sample is accepted; Coq: the values the number / string / enum handlers mark valid satisfy the keywords of their alternative (arithmetic and kvalid form)"),
+  ("C02", "invalid samples rejected", "every sample labelled invalid is rejected by the validator; Coq: each bound keyword is violated by one of the numbers marked invalid, enum non-members are not members"),
   ("C12", "constraints fenced on both sides", "every single-constraint relaxation (type, declared required property, numeric bound) changes the verdict of some sample; Coq: fence lemmas of the builder for numeric bounds, enum members, forbidden types (C12_type_fenced) and omitted required properties (C12_required_fenced)"),
   ("C06", "normalisation preserves acceptance", "extended validator (NOT_enum / NOT_multipleOf) agrees on the schema and on normalize(schema) over an instance grid (equality for full merge, implication for reduced merge); Coq (keyword level, coq/JsonValid.v): every scalar inverter (bounds, lengths, item counts, enum, type) is satisfied exactly by the instances that violate the keyword, _merge is characterised key by key and is a conjunction on sets of bounds"),
   ("C07", "XML documents validate / do not validate", "xmlschema validates every document labelled valid and rejects every document labelled invalid (schemas without emptiable choice branches), numeric draws forced to both ends of their range; the executable Coq model of xml_schema/parse.py + xpath.py (coq/Xml.v: tag handlers, _repeat, type table, restrictions, resolve, optimize, and the document a path builds) is compared with the implementation on every generated schema (stream X: canonical graph with payloads, entries, labels, documents; the numbers drawn at parse time are an input of the model); Coq: C07_repeat_bounds, C07_repeat_unbounded, C07_repeat_empty_label"),
